@@ -4,6 +4,10 @@ import json, os, subprocess
 V = os.path.dirname(os.path.dirname(os.path.abspath(__file__)))
 
 CHECKS = {
+ "C04": dict(level="model_checking", design="DESIGN.md 3/C04",
+   technique="TLA+ heap-construction machine with the flag-first freeze traversal (spec/C04MC.tla) model-checked; every construction replayed as a module on the real pipeline and every node probed (spec->code)",
+   text="TLC builds every object graph with <=3 nodes (quick; <=4 thorough) out of list, dict, set, tuple, struct, parameter default, closure, mutating closure and bound method, with later list-element / dict-value edges including self loops and cycles, every choice of <=2 globals and both outcomes of module initialisation; it checks that the flag-first traversal terminates and freezes exactly the flagged nodes reachable from the globals, and emits each construction (line for line the module source) with the expected frozen set. The harness executes each module with ExecFileOptions and then, for every node, runs every would-change operation of its type (Go API, Starlark methods, index and augmented assignment, functions of the module mutating captured values, bound methods): reachable nodes must reject all of them and stay byte-identical in an identity-aware serialisation, unreachable ones must still accept mutation; the predeclared dict and the universe must be unchanged.",
+   note="Trusted: TLC, the rendering of construction actions to source, the mutator tables in harness/cmd/vh/c04.go (hand-written from dir() of each type). dict keys / set elements cannot reach mutable values (hashability) and carry no edges."),
  "C19": dict(level="exploration", design="DESIGN.md 3/C19",
    technique="TLA+ specification TimeSpec (operator table over ordered operand kinds, exact nanosecond arithmetic on BitInt, proleptic Gregorian calendar, duration text grammar); code->spec record validation by TLC + design-level model check C19MC",
    text="Every entry of the ordered kind-pair x operator table (192 entries, vacuity-guarded) is exercised with a full product of value pools (instants in several zones, durations incl. 0, +-1ns, int64 extremes, ints, floats, other) and, in the thorough tier, 180k seeded random operand tuples over the int64 nanosecond range; TLC judges each recorded result with TimeSpec (exact for integer entries, law-checked for divisions, acceptance/kind/sign for float entries), and checks the round-trip and ordering/hash laws and the calendar attributes.",
